@@ -82,6 +82,7 @@ class Registry:
         self.current = None      # contract under verification
         self.pure_funcs = set()
         self.loop_contracts = {}
+        self.duplicates = []
 
     # ---------------------------------------------------------------- policies
     def has_contract(self, fi, eng):
